@@ -121,6 +121,62 @@ def _sig_param(fn):
     return param_names(fn)[2]
 
 
+def _is_none_test(t, what):
+    """`<what> is None` -> True (bad when true), `<what> is not None` -> False, else None"""
+    if isinstance(t, ast.Compare) and len(t.ops) == 1 and isinstance(t.ops[0], (ast.Is, ast.IsNot, ast.Eq, ast.NotEq)) \
+            and isinstance(t.comparators[0], ast.Constant) and t.comparators[0].value is None and dotted(t.left) == what:
+        return isinstance(t.ops[0], (ast.Is, ast.Eq))
+    return None
+
+
+def _infinity_key(ctx, spec, mod, fn):
+    """A public key at infinity (parse_xonly of 32 zero bytes) must never verify: -e·∞ + s·G = s·G makes (x(s·G), s) a
+    forgery for every message.  Either verify_schnorr tests `self.x is None` before any possibly-true return, or it reads
+    `self.parity` on every such path while S256Point.__init__ leaves `parity` unset for the point at infinity."""
+    cfg = cfg_of(fn)
+    selfname = param_names(fn)[0]
+
+    def m_inf(node, ex, atoms):
+        r = _is_none_test(node.ast, "%s.x" % selfname)
+        if r is None:
+            return None
+        return BAD_TRUE if r else BAD_FALSE
+
+    from sa.guard import check_guard, find_guards
+    gs = find_guards(mod, fn, m_inf)
+    tn = [n.id for n in rl.nonfalse_returns(fn)]
+    if gs:
+        ok, msg, wit = check_guard(mod, fn, gs, tn, fail="raise_or_false")
+        if ok:
+            return [ctx.ok(spec, "a public key at infinity is rejected explicitly (line %d)" % gs[0].node.lineno, gs[0].node.ast, mod, key="key-infinity")]
+    # (b) parity is read on every path to a possibly-true return ...
+    readers = {n.id for n in cfg.nodes if n.ast is not None and n.kind in ("test", "stmt", "return")
+               and any(isinstance(a, ast.Attribute) and a.attr == "parity" and dotted(a.value) == selfname for a in ast.walk(n.ast))}
+    reach = cfg.reach([cfg.entry], blocked=frozenset(readers))
+    unread = [t for t in tn if t in reach]
+    imod, init = rl.get(ctx, "pecc:S256Point.__init__")
+    icfg = cfg_of(init)
+    x = param_names(init)[1]
+    removed = set()
+    for t in icfg.tests():
+        r = _is_none_test(t.ast, x)
+        if r is not None:
+            removed.add((t.id, not r))  # keep only the branch on which x is None
+    live = icfg.reach([icfg.entry], removed=frozenset(removed))
+    sets = [n for n in icfg.nodes if n.id in live and n.kind == "stmt" and isinstance(n.ast, (ast.Assign, ast.AugAssign, ast.AnnAssign))
+            and any(isinstance(tg, ast.Attribute) and tg.attr == "parity" for tg in ast.walk(n.ast) if isinstance(getattr(tg, "ctx", None), ast.Store))]
+    if not unread and not sets:
+        return [ctx.ok(spec, "a public key at infinity cannot verify: `parity` is read on every path and S256Point.__init__ leaves it unset when x is None", fn, mod, key="key-infinity")]
+    why = []
+    if sets:
+        why.append("S256Point.__init__ defines `parity` for the point at infinity (line %d)" % sets[0].lineno)
+    if unread:
+        why.append("a possibly-true return is reachable without reading `parity`")
+    return [ctx.bad(spec, "a public key at infinity is not rejected: there is no `%s.x is None` test before the verdict and %s — with P = ∞ the equation "
+                          "degenerates to s·G, so (x(s·G), s) verifies for every message" % (selfname, "; ".join(why)), sets[0].ast if sets else fn, imod if sets else mod,
+                    key="key-infinity")]
+
+
 def c02_4(ctx):
     """verify_schnorr: R at infinity, result at infinity, odd-Y result rejected before any possibly-true return"""
     spec = "pecc:S256Point.verify_schnorr"
@@ -175,6 +231,7 @@ def c02_4(ctx):
         rl.guard(ctx, spec, m_res_inf, targets="nonfalse", fail="raise_or_false", what="recomputed point at infinity is rejected", key="result-infinity"),
         rl.guard(ctx, spec, m_parity, targets="nonfalse", fail="raise_or_false", what="recomputed point with odd Y is rejected", key="result-parity"),
     ]
+    out += _infinity_key(ctx, spec, mod, fn)
     # final test: every non-false return is the x-only equality of result and sig.r
     for n in rl.nonfalse_returns(fn):
         v = n.ast.value if n.ast is not None else None
@@ -332,6 +389,48 @@ def c02_7(ctx):
         return "?(%s)" % ast.unparse(term)
 
     out += check("pecc:PrivateKey.bip340_k", modk, fnk, "hash_nonce", ["t", "P", "m"], role_nonce, "nonce")
+    out += _xor_width(ctx)
+    return out
+
+
+def _xor_width(ctx):
+    """t = bytes(d) xor H_aux(a) is a 32-byte string: helper.xor_bytes must be length preserving.  Recognised: the
+    element-wise forms (zip / index loop) and `int_to_big_endian(x ^ y, W)` with W the length of an operand or a
+    constant; a width computed from the xor-ed value (bit_length) drops leading zero bytes and changes the nonce."""
+    spec = "helper:xor_bytes"
+    mod, fn = rl.get(ctx, spec)
+    ps = param_names(fn)
+    cfg = cfg_of(fn)
+    out = []
+    for n in cfg.returns():
+        if n.ast is None or n.ast.value is None:
+            continue
+        v = expand(fn, n.id, n.ast.value)
+        verdict = None
+        if isinstance(v, ast.Call) and call_name(v) in ("bytes", "bytearray") and v.args and isinstance(v.args[0], (ast.GeneratorExp, ast.ListComp)):
+            comp = v.args[0]
+            it = comp.generators[0].iter
+            elementwise = isinstance(comp.elt, ast.BinOp) and isinstance(comp.elt.op, ast.BitXor) and len(comp.generators) == 1 and not comp.generators[0].ifs
+            if elementwise and isinstance(it, ast.Call) and call_name(it) == "zip" and sorted(dotted(a) or "" for a in it.args) == sorted(ps[:2]):
+                verdict = (True, "element-wise over zip(%s)" % ", ".join(ps[:2]))
+            elif elementwise and isinstance(it, ast.Call) and call_name(it) == "range" and len(it.args) == 1 and ast.unparse(it.args[0]) in ("len(%s)" % ps[0], "len(%s)" % ps[1]):
+                verdict = (True, "element-wise over range(%s)" % ast.unparse(it.args[0]))
+        elif isinstance(v, ast.Call) and call_name(v) in ("int_to_big_endian", "to_bytes") and len(v.args) >= 2 - (call_name(v) == "to_bytes"):
+            w = v.args[1] if call_name(v) == "int_to_big_endian" else v.args[0]
+            wt = ast.unparse(w)
+            if wt in ("len(%s)" % ps[0], "len(%s)" % ps[1]) or isinstance(Folder(ctx.repo, mod.name).fold(w), int):
+                verdict = (True, "integer xor written back with width %s" % wt)
+            elif any(isinstance(x, ast.Attribute) and x.attr == "bit_length" for x in ast.walk(w)):
+                verdict = (False, "the result width `%s` is computed from the xor-ed value: leading zero bytes are dropped, so t is shorter than 32 bytes "
+                                  "whenever the first bytes of the secret and of H_aux(a) coincide and the nonce differs from BIP340" % wt)
+        if verdict is None:
+            out.append(ctx.err(spec, "xor form not recognised: `%s`" % ast.unparse(v)[:120], n.ast, mod))
+        elif verdict[0]:
+            out.append(ctx.ok(spec, "length preserving (%s)" % verdict[1], n.ast, mod, key="xor-width"))
+        else:
+            out.append(ctx.bad(spec, verdict[1], n.ast, mod, key="xor-width"))
+    if not out:
+        raise AnalysisError("xor_bytes: no return value")
     return out
 
 
